@@ -211,6 +211,16 @@ DoFlush ==
               /\ UNCHANGED <<up, enabled, limit>>
 Flush == DoFlush /\ Edge("flush", 0)
 
+\* FlushFails: the periodic step runs while the database cannot be used (the
+\* handle is gone for a moment, or opening the write transaction fails).
+\* Counts survive hour rollovers and each query is counted exactly once also
+\* then: the step must leave everything as it is -- the unit of the finished
+\* hour stays current ("pending": lead keeps its value), queries arriving
+\* meanwhile are still counted once into it, and a later successful Flush
+\* persists it under its own hour.  Nothing is lost, nothing is counted twice.
+DoFlushFails == up /\ UNCHANGED vars
+FlushFails == DoFlushFails /\ Edge("flushfail", 0)
+
 \* Close: clean shutdown; the current unit is persisted under its hour.
 DoClose == /\ up
            /\ up' = FALSE
@@ -263,7 +273,7 @@ Read == /\ up /\ UNCHANGED vars /\ Edge("read", 0)
 
 Next == \/ \E c \in Cats : Update(c)
         \/ \E k \in 1..MaxTick : Tick(k)
-        \/ Flush \/ Close \/ Open \/ Clear \/ Read
+        \/ Flush \/ FlushFails \/ Close \/ Open \/ Clear \/ Read
         \/ \E l \in Limits : SetLimit(l)
         \/ \E b \in BOOLEAN : SetEnabled(b)
 
